@@ -906,10 +906,11 @@ def get_charnos(node: ast.AST, source: str, keep_first_indent: bool = False) -> 
     if code and code[-1] == " ":
         whitespace = max(re.findall(r" *\Z$", code), key=len)
         end_charno -= len(whitespace)
-    if source[start_charno - 1] == "@" and isinstance(
-        node, (ast.ClassDef, ast.FunctionDef, ast.AsyncFunctionDef)
-    ):
-        start_charno -= 1
+    if isinstance(node, (ast.ClassDef, ast.FunctionDef, ast.AsyncFunctionDef)):
+        # A decorator expression starts after the "@", and after any space or parenthesis following it
+        at_sign = source.rfind("@", 0, start_charno)
+        if at_sign >= 0 and not source[at_sign + 1 : start_charno].strip(" \t("):
+            start_charno = at_sign
     if keep_first_indent:
         whitespace = max(re.findall(r" *\Z$", source[:start_charno]), key=len)
         start_charno -= len(whitespace)
